@@ -139,7 +139,7 @@ func runEndToEnd(w *gen.Writer, r *gen.Rand, f gen.Flags) {
 	if root == "" {
 		root = os.TempDir()
 	}
-	n := f.N(2, 30)
+	n := f.N(2, 12)
 	for i := 0; i < n; i++ {
 		dir, err := os.MkdirTemp(root, "c25-e2e-")
 		if err != nil {
